@@ -26,7 +26,7 @@ def run(ctx):
     ]
     ctx.extra["rule"] = ("states/transitions: TLC (Level-B model runs + trace-validation runs); traces: real executions of the unmodified "
                          "batch span/log processors under the deterministic scheduler, each validated by BatchMonitor.tla (Check={C01}); "
-                         "distinct_nontrivial = executions (distinct seed / DFS tape each)")
+                         "distinct_nontrivial = executions with pairwise different observable event logs (md5 of the log without the seed)")
     exe = build.harness("batch", ["batch.cc"], "shim")
     B.model_check_batch(ctx, ["ExportOnce", "Order", "NoPhantom", "DroppedNotExported", "NoLoss", "ShutdownComplete", "QueueBounded"],
                         live=False)
@@ -45,7 +45,6 @@ def run(ctx):
     from props import _simple
     _simple.run_simple(ctx, "C01")     # exactly once per exporter through providers / multi processors
     ctx.evaluations = ctx.traces
-    ctx.distinct.update(range(ctx.traces))
 
 
 def replay(ctx, path):
